@@ -251,6 +251,10 @@ func (e *Engine) evalBool(t *Term) (bool, bool) {
 
 // sat checks pc ∧ extra. On sat, the model is fetched lazily by satModel.
 func (e *Engine) check(extra ...*Term) string {
+	if !e.deadline.IsZero() && !e.spec && time.Now().After(e.deadline) {
+		e.deadlineHit = true
+		panic(pathEnd{kind: endInconclusive, msg: "instance time limit reached", site: e.site()})
+	}
 	if e.debug {
 		e.stats.Stubs["query@"+e.qwhy]++
 	}
